@@ -61,12 +61,39 @@ func (v valCursor) Namespaces() []store.Cursor { return v.wrap(v.in.Namespaces()
 func (v valCursor) Attributes() []store.Cursor { return v.wrap(v.in.Attributes()) }
 func (v valCursor) Children() []store.Cursor   { return v.wrap(v.in.Children()) }
 
+// bigCursor is a view whose positions are spread far beyond 32 bits (the
+// contract asks for unique, ordered ints with the root at 0 - nothing about
+// their size).
+type bigCursor struct{ in store.Cursor }
+
+func (v *bigCursor) Pos() int        { return v.in.Pos() * (1<<31 + 12345) }
+func (v *bigCursor) Node() node.Node { return v.in.Node() }
+func (v *bigCursor) Parent() store.Cursor {
+	if p := v.in.Parent(); p != nil {
+		return &bigCursor{p}
+	}
+	return nil
+}
+func (v *bigCursor) wrap(cs []store.Cursor) []store.Cursor {
+	out := make([]store.Cursor, len(cs))
+	for i, c := range cs {
+		out[i] = &bigCursor{c}
+	}
+	return out
+}
+func (v *bigCursor) Namespaces() []store.Cursor { return v.wrap(v.in.Namespaces()) }
+func (v *bigCursor) Attributes() []store.Cursor { return v.wrap(v.in.Attributes()) }
+func (v *bigCursor) Children() []store.Cursor   { return v.wrap(v.in.Children()) }
+
 // viewOf wraps a store cursor in one of the user-written views.
 func viewOf(c store.Cursor, kind int) store.Cursor {
-	if kind%2 == 0 {
+	switch kind % 3 {
+	case 0:
 		return &viewCursor{c}
+	case 1:
+		return valCursor{in: c}
 	}
-	return valCursor{in: c}
+	return &bigCursor{c}
 }
 
 // unview returns the store cursor behind a view (or c itself).
@@ -76,6 +103,8 @@ func unview(c store.Cursor) store.Cursor {
 		case *viewCursor:
 			c = v.in
 		case valCursor:
+			c = v.in
+		case *bigCursor:
 			c = v.in
 		default:
 			return c
